@@ -17,7 +17,7 @@ LEVEL = "exploration"
 RULE = (
     "Hypothesis draws towers 1..3 x steps 1..4 (1x1 included) with per-step met values (repeated conditions allowed), footprint or "
     "dispersion, halo default / 0 / explicit, precision, a parallel strategy in {towers, time, both}, max_workers 1..5, parent "
-    "NUM_THREADS in {1, 4}, use_cache on/off, and a delay table (tower, step) -> {0, 20, 60, 120} ms. Schedule control: "
+    "NUM_THREADS in {1, 4}, use_cache on/off, an optional user-supplied surface flux for the serial drivers, and a delay table (tower, step) -> {0, 20, 60, 120} ms. Schedule control: "
     "bldfm.interface.run_bldfm_single is wrapped before the pool forks so that every worker sleeps its drawn delay first - the "
     "completion order is a function of the drawn table. Oracle: reference single runs computed serially with one thread and no "
     "cache; run_bldfm_timeseries (per tower), run_bldfm_multitower and run_bldfm_parallel must return tower names in configuration "
@@ -51,6 +51,7 @@ def _case(draw):
         "strategy": draw(st.sampled_from(["towers", "time", "both"])), "workers": draw(st.sampled_from([2, 3, 5, 1, 4])),
         "parent_threads": draw(st.sampled_from([1, 4])), "use_cache": draw(st.booleans()),
         "timestamps": draw(st.booleans()),
+        "user_flux": draw(st.sampled_from([False, False, True])),
         "delays": [[draw(st.sampled_from([120, 0, 60, 20, 0])) for _ in range(nt)] for _ in range(ntow)],
     }
 
@@ -111,10 +112,17 @@ def check_case(case):
     # ---- reference: serial, one thread, no cache, no delays
     env.reset_globals()
     ref = {t.name: [iface.run_bldfm_single(cfg, t, met_index=i) for i in range(nt)] for t in cfg.towers}
+    flux = None
+    if case.get("user_flux"):
+        # a user-supplied source is handed on by the serial drivers (the parallel driver documents that it ignores it)
+        jj, ii = np.meshgrid(np.arange(6), np.arange(8), indexing="ij")
+        flux = np.sin(0.7 * ii) + 0.3 * jj
+        ref_flux = {t.name: [iface.run_bldfm_single(cfg, t, met_index=i, surface_flux=flux) for i in range(nt)] for t in cfg.towers}
+        out.label("user-flux")
     rel = 1e-12 if case["precision"] == "double" else 1e-6
     bit = [True]
 
-    def compare(driver, res):
+    def compare(driver, res, ref=ref):
         if list(res.keys()) != names:
             out.bad(f"{driver}: tower keys {list(res.keys())} are not the configured towers in order {names}")
             return
@@ -169,6 +177,12 @@ def check_case(case):
             finally:
                 signal.alarm(0)
             compare(driver, res)
+        if flux is not None:
+            try:
+                compare("run_bldfm_timeseries(surface_flux)", {t.name: iface.run_bldfm_timeseries(cfg, t, surface_flux=flux) for t in cfg.towers}, ref_flux)
+                compare("run_bldfm_multitower(surface_flux)", iface.run_bldfm_multitower(cfg, surface_flux=flux), ref_flux)
+            except Exception as e:
+                out.bad(f"serial driver with a user-supplied surface flux raised {type(e).__name__}: {e}")
         # a second pass with the cache now populated (hits instead of solves)
         if case["use_cache"] and case["footprint"]:
             try:
